@@ -546,6 +546,21 @@ func c09ChainTTL(w *W) {
 			return
 		}
 	}
+	if w.Choose(simrt.SShape, 2) == 0 {
+		// the receiving end changes its hop limit now that the chain is up and
+		// idle: the very next message is judged by the new value
+		nt := pick()
+		if err := server.SetOption(mangos.OptionTTL, nt); err != nil {
+			w.Failf("C19/option-refused", "%s: SetOption(TTL, %d) on a connected socket: %v", fam.serve, nt, err)
+			return
+		}
+		w.SetShape("server_ttl_changed_when_idle", fmt.Sprintf("%d->%d", serverTTL, nt))
+		if nt != serverTTL {
+			w.Probe("ttl-changed-on-an-idle-connection")
+		}
+		serverTTL = nt
+		w.Settle()
+	}
 	want := d+1 <= limitOf(serverTTL)
 	blockedAt := ""
 	for i := 1; i <= d; i++ {
